@@ -5,6 +5,7 @@ import (
 	"go/token"
 	"go/types"
 	"path/filepath"
+	"sort"
 	"strings"
 )
 
@@ -40,6 +41,8 @@ func runC15(c *Ctx) {
 	c.Rule("C15-R2", "error classification tables", 16)
 	c.Rule("C15-R3", "severity of API failures in problemFromError; strictness flows from Required", 6)
 	c.Rule("C15-R4", "error discipline at every API call site in internal/checks", 60)
+	c.Rule("C15-R5", "cache protocol: only successes are stored, key names the upstream (shared with C14-R3)", 20)
+	defer c14CacheR(c, "C15-R5")
 	defer c15NoStickyOutage(c)
 
 	prom := p.Pkg("internal/promapi")
@@ -370,6 +373,26 @@ func c15Tables(c *Ctx) {
 					}
 				}
 			}
+		}
+		// the status-code fallback is taken whenever the body did not decode,
+		// and only then
+		pmTD := parentMap(td.Decl.Body)
+		for _, sw := range findSwitches(td.Decl.Body, func(s *ast.SwitchStmt) bool {
+			if s.Tag == nil {
+				return false
+			}
+			be, ok := ast.Unparen(s.Tag).(*ast.BinaryExpr)
+			return ok && be.Op == token.QUO
+		}) {
+			gs := lexicalGuards(pmTD, sw, td.Decl.Body)
+			var txt []string
+			for _, g := range gs {
+				txt = append(txt, atomStr(info, g))
+			}
+			sort.Strings(txt)
+			got := strings.Join(txt, " && ")
+			c.Check(got == "err != nil", "C15-R2", "tryDecodingAPIError:status-code fallback exactly when the body does not decode", sw.Pos(), got,
+				"the HTTP-status fallback (5xx -> server_error, 4xx -> client_error) is taken under `"+got+"`, expected exactly `err != nil` of the body decoder: a 5xx answer whose body is cut short after the status field is then classified from a half-read body (not as unavailable, so no failover)")
 		}
 		c.Check(got[4] == "client_error", "C15-R2", "tryDecodingAPIError:4xx without JSON -> client_error", td.Decl.Pos(), "client", "undecodable 4xx maps to "+strq(got[4]))
 		c.Check(got[5] == "server_error", "C15-R2", "tryDecodingAPIError:5xx without JSON -> server_error", td.Decl.Pos(), "server", "undecodable 5xx maps to "+strq(got[5]))
@@ -942,4 +965,16 @@ func c15NoStickyOutage(c *Ctx) {
 	}
 	c.Check(nRunless >= 2 && bad == "", "C15-R1", "processJob:answers without asking the server are cache hits or ErrUnsupported", fi.Decl.Pos(), itoa(nRunless)+" run-less returns",
 		"processJob can return at "+bad+" without calling query.Run() and without it being a cached successful answer or ErrUnsupported: a remembered failure keeps answering for this upstream after it has recovered, and every request keeps failing over")
+}
+
+// atomStr renders one guard atom with locals shown by role.
+func atomStr(info *types.Info, a Atom) string {
+	t := roleStr(info, a.E)
+	if a.Tag != nil {
+		t = roleStr(info, a.Tag) + " == " + t
+	}
+	if !a.Truth {
+		t = "!(" + t + ")"
+	}
+	return t
 }
